@@ -42,17 +42,17 @@ def run(ck):
                 gm = [c for c in b.calls() if c.name == "get_mut" and c.callee_body() is not None and T.resolves_to_arg(b, c.args[0], 1)]
                 ck.verdict(T.resolves_to_arg(b, io.args[0], 1) or T.resolves_to_call(b, io.args[0], [c.bb for c in gm]), "1", "T6-provenance", b, "receiver-is-own-fd", "the inner call is made on the adapter's own fd", "the inner call is not made on the adapter's own fd", site=b.where(io.bb))
                 # Ready(res) carries the inner result unchanged
-                readies = [(i, st) for i, j, st in b.statements() if st["s"] == "assign" and st["pl"]["l"] == 0 and st["rv"]["r"] == "agg" and st["rv"].get("variant") == "Ready" and not b.is_cleanup(i)]
+                readies = [(i, st) for i, j, st in b.statements() if st["s"] == "assign" and st["pl"]["l"] in T.ret_locals(b) and st["rv"]["r"] == "agg" and st["rv"].get("variant") == "Ready" and not b.is_cleanup(i)]
                 okr = bool(readies) and all(any(r == ("call", io.bb) and not p for r, p in b.resolve(st["rv"]["fields"][0])) for i, st in readies)
                 ck.verdict(okr, "1", "T6-provenance", b, "Ready(result)-unchanged", "every Ready result is the inner call's result, unchanged", "a Ready result is not the unchanged result of the inner call", site=b.where())
                 # WouldBlock => register_waker(interest) => Pending
                 rw = [cs for cs in b.calls() if cs.name == "register_waker" and not b.is_cleanup(cs.bb)]
-                pend = [i for i, j, st in b.statements() if st["s"] == "assign" and st["pl"]["l"] == 0 and st["rv"]["r"] == "agg" and st["rv"].get("variant") == "Pending" and not b.is_cleanup(i)]
+                pend = [i for i, j, st in b.statements() if st["s"] == "assign" and st["pl"]["l"] in T.ret_locals(b) and st["rv"]["r"] == "agg" and st["rv"].get("variant") == "Pending" and not b.is_cleanup(i)]
                 okw = bool(rw) and bool(pend)
                 if okw:
                     c = rw[0]
                     k = c.args[1].get("k", {})
-                    okw = (k.get("const_path", k.get("s", "")).endswith("Interest::" + interest)) and all(T.t3_dominated_by_any(b, i, [c.bb]) for i in pend)
+                    okw = (T.const_name(b, c.args[1]).endswith("Interest::" + interest)) and all(T.t3_dominated_by_any(b, i, [c.bb]) for i in pend)
                     wk = any(cs.name == "waker" for cs in b.calls()) and T.tainted_by_call(b, c.args[2], [cs.bb for cs in b.calls() if cs.name == "waker"])
                     okw = okw and wk
                 ck.verdict(okw, "2", "T8-sibling-agreement", b, "WouldBlock=>arm:%s,then-Pending" % interest, "Pending is returned only after register_waker(Interest::%s, cx.waker().clone())" % interest, "%s does not arm Interest::%s with the task's waker before returning Pending: the task is never woken when the fd becomes ready" % (fn, interest), site=b.where())
@@ -79,16 +79,16 @@ def run(ck):
             ck.anchor_missing("2", "T8-sibling-agreement", q)
             continue
         rw = [cs for cs in b.calls() if cs.name == "register_waker" and not b.is_cleanup(cs.bb)]
-        pend = [i for i, j, st in b.statements() if st["s"] == "assign" and st["pl"]["l"] == 0 and st["rv"]["r"] == "agg" and st["rv"].get("variant") == "Pending" and not b.is_cleanup(i)]
-        ok = bool(rw) and bool(pend) and all(c.args[1].get("k", {}).get("const_path", c.args[1].get("k", {}).get("s", "")).endswith("Interest::" + interest) for c in rw) and all(T.t3_dominated_by_any(b, i, [c.bb for c in rw]) for i in pend)
+        pend = [i for i, j, st in b.statements() if st["s"] == "assign" and st["pl"]["l"] in T.ret_locals(b) and st["rv"]["r"] == "agg" and st["rv"].get("variant") == "Pending" and not b.is_cleanup(i)]
+        ok = bool(rw) and bool(pend) and all(T.const_name(b, c.args[1]).endswith("Interest::" + interest) for c in rw) and all(T.t3_dominated_by_any(b, i, [c.bb for c in rw]) for i in pend)
         ck.verdict(ok, "2", "T8-sibling-agreement", b, "Pending-only-after-arming:%s" % interest, "Pending is returned only after register_waker(Interest::%s, ..)" % interest, "%s returns Pending without arming Interest::%s" % (q, interest), site=b.where())
-        reads = [st for i, j, st in b.statements() if st["s"] == "assign" and st["rv"]["r"] == "use" and T.path_has(b, st["rv"]["o"], "." + fld)]
+        reads = [st for b2 in [b] + f.closures_of(b) for i, j, st in b2.statements() if st["s"] == "assign" and st["rv"]["r"] == "use" and T.path_has(b2, st["rv"]["o"], "." + fld)]
         ck.verdict(bool(reads), "2", "T6-provenance", b, "tests-readiness.%s" % fld, "readiness.%s decides Ready" % fld, "%s does not test readiness.%s" % (q, fld), site=b.where(), nontrivial=False)
 
     # register_waker
     rwb = ck.body("2", "Async::register_waker")
     rr = [cs for cs in rwb.calls() if cs.name == "reregister" and not rwb.is_cleanup(cs.bb)]
-    okret = [i for i, j, st in rwb.statements() if st["s"] == "assign" and st["pl"]["l"] == 0 and st["rv"]["r"] == "agg" and st["rv"].get("variant") == "Ok" and not rwb.is_cleanup(i)]
+    okret = [i for i, j, st in rwb.statements() if st["s"] == "assign" and st["pl"]["l"] in T.ret_locals(rwb) and st["rv"]["r"] == "agg" and st["rv"].get("variant") == "Ok" and not rwb.is_cleanup(i)]
     bad = T.t2_all_exits(rwb, [0], [c.bb for c in rr]) if rr else [0]
     ck.verdict(bad is None, "2", "T2-all-exits", rwb, "always-rearms-poller", "register_waker re-arms the poller on every path (the registration is one-shot: each wait needs its own arming)", "register_waker can return without re-arming the one-shot registration (e.g. when a waker is still stored): the fd's next readiness is never reported and the task is never woken", site=rwb.where(), path=path_descr(rwb, bad) if bad else None)
     st_i = [i for i, j, st in T.stores_to_field(rwb, "interest")]
@@ -113,8 +113,7 @@ def run(ck):
         pr = [cs for cs in li.calls() if cs.f and cs.f["path"] == "sys::Poll::register" and not li.is_cleanup(cs.bb)]
         ok = bool(pr)
         for c in pr:
-            k = c.args[2].get("k", {})
-            ok = ok and k.get("const_path", k.get("s", "")).endswith("Interest::EMPTY") and T.agg_variant(li, c.args[3]) == {("sys::Mode", "OneShot")} and T.path_has(li, c.args[4], ".token")
+            ok = ok and T.const_name(li, c.args[2]).endswith("Interest::EMPTY") and T.agg_variant(li, c.args[3]) == {("sys::Mode", "OneShot")} and T.path_has(li, c.args[4], ".token")
         ck.verdict(ok, "2", "T6-provenance", li, "initial-registration:EMPTY+OneShot", "an adapter nobody awaits is registered with no interest, one-shot: it produces no events (not even a peer hang-up on every poll)", "the initial registration of an Async adapter is not (Interest::EMPTY, Mode::OneShot): an idle adapter whose peer hung up is reported on every poll and dispatch() spins", site=li.where())
 
     # ---- clause 3: event -> readiness recorded, waker woken --------------------------------------------------
